@@ -27,7 +27,7 @@ from bounded.common import match_known
 
 UTC = datetime.timezone.utc
 T0 = datetime.datetime(2024, 1, 1, tzinfo=UTC)
-JPEG_PATH = '/repo/tests/testdata/simple.jpg'
+JPEG_PATH = os.path.join(os.environ.get('PYVC_REPO', '/repo'), 'tests/testdata/simple.jpg')
 
 SIGNING_ALGS = (1, 3, 17, 19, 22)
 KEY_TAGS = (5, 6)
